@@ -69,3 +69,59 @@ Definition run_c12seg (arg : sx) : sx :=
   let chunks := map sx_get_b (sx_get_l (sx_nth arg 2)) in
   let '(calls, b) := run_exc bad buf chunks in
   SL [SL (map (fun c => SL [SL (map SB (fst c)); sx_bool (snd c)]) calls); SB b].
+
+(* ---- concurrent operations in flight: the harness pauses a real thread inside a layer (an application
+   callback that waits), lets another thread run into the lock, then lets the first one raise or return.
+   phase = (N thread  N mode  N target):
+     mode 0: drive the thread until its operation is over or it cannot step (blocked on a lock)
+     mode 1: drive it until it is running node `target`'s own code (then pause there)
+     mode 2: the thread's next step raises (inside the node it is paused in), then as mode 0
+   per phase: (N outcome  (N locked ...)  (N entered ...))   outcome 0 returned, 1 raised, 2 blocked,
+   3 fuel/no such thread, 4 paused inside target *)
+Fixpoint drive_until (T : table) (fuel : nat) (t : nat) (target : option nat) (nres : nat)
+         (c : config nat (list nat)) : config nat (list nat) * nat :=
+  match fuel with
+  | O => (c, 3)
+  | S fuel' =>
+    match nth_error (thr c) t with
+    | None => (c, 3)
+    | Some th =>
+      if Nat.ltb nres (length (results th)) then (c, if last (results th) true then 0 else 1)
+      else
+        match target, inside th with
+        | Some y, Some y' => if Nat.eqb y y' then (c, 4) else
+            match t_exec T c (t, false) with None => (c, 2) | Some c' => drive_until T fuel' t target nres c' end
+        | _, _ =>
+            match t_exec T c (t, false) with None => (c, 2) | Some c' => drive_until T fuel' t target nres c' end
+        end
+    end
+  end.
+
+Fixpoint run_phases (T : table) (phases : list sx) (nres : list nat) (c : config nat (list nat)) : list sx :=
+  match phases with
+  | [] => []
+  | p :: rest =>
+    let t := nat_of (sx_nth p 0) in
+    let mode := nat_of (sx_nth p 1) in
+    let target := nat_of (sx_nth p 2) in
+    let nr := nth t nres 0 in
+    let c1 := match mode with
+              | 2 => match t_exec T c (t, true) with Some c' => c' | None => c end
+              | _ => c
+              end in
+    let '(c', out) := drive_until T 4000 t (match mode with 1 => Some target | _ => None end) nr c1 in
+    let nres' := match out with
+                 | 0 | 1 => set_nth t (S nr) nres
+                 | _ => nres
+                 end in
+    SL [sx_nat out; lock_row T c'; SL (map sx_nat (skipn_nat (length (sh c)) (sh c')))]
+       :: run_phases T rest nres' c'
+  end.
+
+(* arg: (table  nthreads  (op ...)  (phase ...)) *)
+Definition run_c12_phases (arg : sx) : sx :=
+  let T := table_of (sx_nth arg 0) in
+  let nthreads := nat_of (sx_nth arg 1) in
+  let ops := sx_get_l (sx_nth arg 2) in
+  let opss := map (ops_of_thread ops) (seq_from 0 nthreads) in
+  SL (run_phases T (sx_get_l (sx_nth arg 3)) (map (fun _ => 0) (seq_from 0 nthreads)) (t_init opss)).
